@@ -13,7 +13,7 @@
    diagnostics are only ever appended (Context.new_error -> Errors.add, pinned by fingerprint). *)
 From NV Require Import Model.Base Model.Diag Model.RuleChecks Gen.RuleChecks Model.Engine Model.RegistryOrder Gen.Registry.
 From NV Require Import Proofs.EngineProofs Proofs.RuleChecksProofs Proofs.RuleChecksProofs2 Proofs.RuleChecksLift.
-From NV Require Import Proofs.RuleChecksSpacing Proofs.RuleChecksSpacing3 Proofs.RuleChecksSpacing2.
+From NV Require Import Proofs.RuleChecksSpacing Proofs.RuleChecksSpacing3 Proofs.SpacingTotal Proofs.RuleChecksSpacing2.
 Local Open Scope Z_scope.
 
 (* the full property, over the components that are not all modelled (kept visible, not proved) *)
@@ -146,54 +146,53 @@ Theorem C02_partial_W06_W07_given_history : forall toks scope v k h1 rest t0,
 Proof. exact check_line_indent_value. Qed.
 Print Assumptions C02_partial_W06_W07_given_history.
 
-(* ---- W05 spaces instead of the indentation, on the first line of a statement *)
-Theorem C02_partial_W05_first_line : forall toks scope v h1 rest ts t1 E v',
-  v_history v = h1 :: rest -> str_in h1 spacing_skipped = false ->
+(* ---- W05 spaces instead of the indentation, on the first line of a statement.  CheckSpacing is total on what the registry
+   passes (tkn_scope >= 0, the matched primary in the history: Proofs/SpacingTotal.v), so these are unconditional *)
+Theorem C02_partial_W05_first_line : forall toks scope v h1 rest ts t1,
+  0 <= scope -> v_history v = h1 :: rest -> str_in h1 spacing_skipped = false ->
   peek toks 0 = Some ts -> t_type ts = ty_space -> t_col ts = 1 -> 0 < slice_len toks scope ->
   peek toks (after_spaces toks scope) = Some t1 ->
-  check_spacing toks scope v = Ok (E, v') ->
-  In ((if truthy (check1 toks (after_spaces toks scope + 1) (s "NEWLINE")) then s "SPACE_EMPTY_LINE" else s "SPACE_REPLACE_TAB"),
-      t_line t1, t_col t1) E.
-Proof. exact check_spacing_leading_space. Qed.
+  exists E v', check_spacing toks scope v = Ok (E, v') /\
+    In ((if truthy (check1 toks (after_spaces toks scope + 1) (s "NEWLINE")) then s "SPACE_EMPTY_LINE" else s "SPACE_REPLACE_TAB"),
+        t_line t1, t_col t1) E.
+Proof. exact check_spacing_leading_space_total. Qed.
 Print Assumptions C02_partial_W05_first_line.
 
 (* ---- W01, W14, W15: blanks inside a statement, at ANY position i of the statement (CheckSpacing's loop reaches every
-   SPACE that does not follow another SPACE).  Stated for runs of the check that return normally (it raises AttributeError
-   when the tokens end inside a run of blanks - the harness compares the outcome on every recorded invocation). *)
+   SPACE that does not follow another SPACE) *)
 Theorem C02_partial_W01 : forall (toks : list token) (scope i : Z) (ts : token),
   0 <= i < slice_len toks scope -> peek toks i = Some ts -> t_type ts = ty_space ->
-  (0 < i -> truthy (check1 toks (i - 1) ty_space) = false) ->
-  forall (v : view) (h1 : str) (rest : list str) (E : list em) (v' : view),
+  (0 < i -> truthy (check1 toks (i - 1) ty_space) = false) -> 0 <= scope ->
+  forall (v : view) (h1 : str) (rest : list str),
   v_history v = h1 :: rest -> str_in h1 spacing_skipped = false ->
   t_col ts <> 1 ->
   truthy (checkl toks (i - 1) [s "LBRACE"; s "RBRACE"]) = false ->
   truthy (check1 toks (skip_ws toks i) (s "NEWLINE")) = true ->
-  check_spacing toks scope v = Ok (E, v') ->
-  In (s "SPC_BEFORE_NL", t_line ts, t_col ts) E.
-Proof. exact check_spacing_trailing_space. Qed.
+  exists E v', check_spacing toks scope v = Ok (E, v') /\ In (s "SPC_BEFORE_NL", t_line ts, t_col ts) E.
+Proof. exact check_spacing_trailing_space_total. Qed.
 Print Assumptions C02_partial_W01.
 
 (* once per statement: at this space, or the statement already has the code from an earlier pair *)
 Theorem C02_partial_W14 : forall (toks : list token) (scope i : Z) (ts : token),
   0 <= i < slice_len toks scope -> peek toks i = Some ts -> t_type ts = ty_space ->
-  (0 < i -> truthy (check1 toks (i - 1) ty_space) = false) ->
-  forall (v : view) (h1 : str) (rest : list str) (E : list em) (v' : view),
+  (0 < i -> truthy (check1 toks (i - 1) ty_space) = false) -> 0 <= scope ->
+  forall (v : view) (h1 : str) (rest : list str),
   v_history v = h1 :: rest -> str_in h1 spacing_skipped = false ->
   t_col ts <> 1 -> truthy (check1 toks (i + 1) ty_space) = true ->
-  check_spacing toks scope v = Ok (E, v') ->
-  In (s "CONSECUTIVE_SPC", t_line ts, t_col ts) E \/ has_code (s "CONSECUTIVE_SPC") E.
-Proof. exact check_spacing_double_space. Qed.
+  exists E v', check_spacing toks scope v = Ok (E, v') /\
+    (In (s "CONSECUTIVE_SPC", t_line ts, t_col ts) E \/ has_code (s "CONSECUTIVE_SPC") E).
+Proof. exact check_spacing_double_space_total. Qed.
 Print Assumptions C02_partial_W14.
 
 Theorem C02_partial_W15 : forall (toks : list token) (scope i : Z) (ts : token),
   0 <= i < slice_len toks scope -> peek toks i = Some ts -> t_type ts = ty_space ->
-  (0 < i -> truthy (check1 toks (i - 1) ty_space) = false) ->
-  forall (v : view) (h1 : str) (rest : list str) (E : list em) (v' : view),
+  (0 < i -> truthy (check1 toks (i - 1) ty_space) = false) -> 0 <= scope ->
+  forall (v : view) (h1 : str) (rest : list str),
   v_history v = h1 :: rest -> str_in h1 spacing_skipped = false ->
   t_col ts <> 1 -> truthy (check1 toks (i + 1) (s "TAB")) = true ->
-  check_spacing toks scope v = Ok (E, v') ->
-  In (s "MIXED_SPACE_TAB", t_line ts, t_col ts) E \/ has_code (s "MIXED_SPACE_TAB") E.
-Proof. exact check_spacing_space_tab. Qed.
+  exists E v', check_spacing toks scope v = Ok (E, v') /\
+    (In (s "MIXED_SPACE_TAB", t_line ts, t_col ts) E \/ has_code (s "MIXED_SPACE_TAB") E).
+Proof. exact check_spacing_space_tab_total. Qed.
 Print Assumptions C02_partial_W15.
 
 (* ---- known findings, as far as the modelled checks show them *)
